@@ -79,6 +79,7 @@ def check(ctx):
     ctx.rule("K2", "every default target exists and every leaf of the reachable sub-DAG is a documented input variable")
     ctx.rule("K3", "every parameter path a reachable rule (incl. inlined helpers, both branches of data-dependent tests) can read exists at that date and is not null where it is used in arithmetic")
     ctx.rule("K3s", "within one rule, all look-ups keyed by the same data-valued expression agree on the admissible key set (a table missing a key its siblings have is deviant)")
+    ctx.rule("K3d", "a look-up keyed by a computed count (persons, children, ...) into a table with integer keys is limited to the largest key by a min(...) clamp or a dominating guard (interval domain)")
     ctx.rule("K4", "every reachable rule marked for rounding has params[key]['rounding'][name] with base and direction at that date")
     ctx.rule("K5", "no reachable rule raises unconditionally; every reachable pointer aggregate uses an implemented kind")
     ctx.rule("K6", "for every reachable aggregate the producer-side type of its source satisfies the dtype precondition the aggregation function enforces")
@@ -172,6 +173,21 @@ def check(ctx):
                         keyexpr = e[6] if len(e) > 7 else "?"
                         bykey[keyexpr].append((e[3], e[4]))
                         dyn_listed[(r.qual, e[3])] = (e[4][0][:12] if e[4] else [], e[5])
+                        # K3d: a key computed from counts / other rules (no input domain bounds it) must be
+                        # bounded by a clamp or guard to the largest integer key of the table
+                        if len(e) > 8 and isinstance(e[7], tuple) and len(e[7]) == 3:
+                            klb, kub, kdeps = e[7]
+                            computed = [a for a in kdeps if a in dag.nodes]
+                            for ksx in e[4]:
+                                ints = sorted(int(k) for k in ksx if k.lstrip("-").isdigit())
+                                if not ints or not computed or "(get)" in str(keyexpr):
+                                    continue
+                                ok = kub is not None and kub <= ints[-1]
+                                ctx.ob("K3d", ok=ok, distinct=(r.qual, e[3]))
+                                if not ok:
+                                    gtxt = " under " + " and ".join(("" if p == "+" else "not ") + f"({t})" for p, t in e[-1]) if e[-1] else ""
+                                    ctx.violation("K3d", f"{r.qual}|{e[3]}|unbounded key", f"src/_gettsim/{e[2]}:{e[1]} {r.name}",
+                                                  f"at {d} `{e[3]}` is keyed by `{keyexpr}`, computed from {computed} and not limited to the table's largest key {ints[-1]} by a min(...) clamp or a guard{gtxt}: a larger household / more children raise KeyError")
                     elif e[0] in ("unknown-call", "unknown-name", "unhandled-stmt", "depth-bound", "global-nonliteral"):
                         ctx.skip("K3", f"{r.qual}", f"{e[0]} {e[3]}")
                 nreads += 1
